@@ -9,7 +9,9 @@ GatedCfgs == {[W |-> w, S |-> s, per |-> p, rounds |-> r, gated |-> TRUE] :
                 w \in 0..MaxW, s \in 1..MaxS, p \in 1..MaxPer, r \in 1..MaxRounds}
 EarlyCfgs == {[W |-> w, S |-> s, per |-> p, rounds |-> r, gated |-> FALSE, early |-> TRUE] :
                 w \in 0..MaxW, s \in 1..MaxS, p \in 1..MaxPer, r \in 1..MaxRounds}
-Cfgs == CASE Family = "full" -> FullCfgs [] Family = "gated" -> GatedCfgs [] Family = "early" -> EarlyCfgs
+SelfWaitCfgs == {[W |-> w, S |-> s, per |-> p, rounds |-> r, gated |-> FALSE, selfwait |-> TRUE] :
+                w \in 0..MaxW, s \in 2..MaxS, p \in 1..MaxPer, r \in 1..MaxRounds}
+Cfgs == CASE Family = "full" -> FullCfgs [] Family = "gated" -> GatedCfgs [] Family = "early" -> EarlyCfgs [] Family = "selfwait" -> SelfWaitCfgs
 
 MCInit == \E c \in Cfgs : InitWith(c)
 MCSpec == MCInit /\ [][Next]_vars
